@@ -217,11 +217,24 @@ def evaluate(chk: core.Check, cases):
                        {**base, 'reported_payback': pb, 'model': float(fixed), 'cumulative': py['TotalCummRevenue']}, 'correspondence-break')
         if r['payback_line'] is not None:
             shown_na = r['payback_line'] == 'N/A'
-            never = not any(is_turn(py['TotalCummRevenue'], j) for j in range(1, len(py['TotalCummRevenue'])))
-            if never and not shown_na:
+            cumr = py['TotalCummRevenue']
+            turns = [j for j in range(1, len(cumr)) if is_turn(cumr, j)]
+            if not turns and not shown_na:
                 chk.fail('C04/payback/na', "cumulative cash flow never turns positive but the report does not show 'N/A'",
-                         {**base, 'report_shows': r['payback_line'], 'cumulative': py['TotalCummRevenue']})
-            chk.tag('payback-line/' + ('NA' if shown_na else 'value'))
+                         {**base, 'report_shows': r['payback_line'], 'cumulative': cumr})
+            if shown_na and turns and not why and pb > 0:
+                # the series implies a payback period (and the code computed one) but the report hides it
+                chk.fail('C04/payback/na-although-pays-back', "the report shows 'N/A' although the reported cumulative cash flow turns positive "
+                         f'in year {turns[-1]} (computed payback {pb})', {**base, 'report_shows': 'N/A', 'computed_payback': pb, 'cumulative': cumr})
+            if not shown_na and not why:
+                try:
+                    printed = Fraction(r['payback_line'])
+                    if abs(printed - Fraction(pb)) > Fraction(5001, 1000000):
+                        chk.fail('C04/payback/report-value', 'the payback period in the report is not the computed one rounded to 2 decimals',
+                                 {**base, 'report_shows': r['payback_line'], 'computed_payback': pb})
+                except ValueError:
+                    chk.fail('C04/payback/report-value', 'payback line of the report is neither a number nor N/A', {**base, 'report_shows': r['payback_line']})
+            chk.tag('payback-line/' + ('NA' if shown_na else 'value') + ('/late' if turns and turns[-1] > a['L'] else ''))
         # IRR clause
         if f'i{k}' in res:
             h2, kv2 = core.parse_kv(res[f'i{k}'])
